@@ -531,7 +531,10 @@ class Type1TagMemoryReader(object):
         raise TypeError(msg.format(cls=self.__class__.__name__))
 
     def _read_from_tag(self, stop):
-        if len(self) < 120:
+        # Header rom and static memory are read once and block 15
+        # directly after the 120 byte static memory. Reading them again
+        # later would replace bytes that have already been evaluated.
+        if len(self._header_rom) < 2:
             read_all_data_response = self._tag.read_all()
             if len(read_all_data_response) < 2:
                 log.debug("read all response without header rom")
@@ -540,7 +543,7 @@ class Type1TagMemoryReader(object):
             self._data_from_tag[0:] = read_all_data_response[2:]
             self._data_in_cache[0:] = self._data_from_tag[0:]
 
-        if stop > 120 and len(self) < 128:
+        if stop > 120 and len(self) == 120:
             read_block_response = self._tag.read_block(15)
             self._data_from_tag[120:128] = read_block_response
             self._data_in_cache[120:128] = read_block_response
